@@ -702,8 +702,16 @@ func markEnvFiles(L *Layout) {
 
 // ---------------------------------------------------------------- the run
 
+// c01Layout: mostly general layouts, one in five an attribute-stress layout (see c02Layout)
+func c01Layout(r *zsimrt.Run) *Layout {
+	if r.Chance("c01-stress", 1, 5) {
+		return GenLayoutForced(r, map[string]bool{"stress": true, "override": true, "profiles-opt": false, "env_file": true, "label_file": true})
+	}
+	return GenLayout(r)
+}
+
 func c01Run(c *Ctx, r *zsimrt.Run) {
-	L := GenLayout(r)
+	L := c01Layout(r)
 	g := &G{R: r, feat: map[string]bool{}, L: L}
 	class := "A"
 	if r.Chance("class-cycle", 1, 5) {
